@@ -225,17 +225,23 @@ class Parser:
             lo = self.expr()
             self.expect(";")
             if not (self.peek()[1] == var):
-                self.err("for-condition must be `%s < bound`" % var)
+                self.err("for-condition must compare the loop variable `%s`" % var)
             self.i += 1
-            self.expect("<")
+            cmpop = self.peek()[1]
+            if cmpop not in ("<", ">=", ">", "<="):
+                self.err("for-condition operator %r" % (cmpop,))
+            self.i += 1
             hi = self.expr()
             self.expect(";")
-            if not (self.peek()[1] == var and self.peek(1)[1] == "++"):
-                self.err("for-increment must be `%s++`" % var)
+            if not (self.peek()[1] == var and self.peek(1)[1] in ("++", "--")):
+                self.err("for-increment must be `%s++` or `%s--`" % (var, var))
+            step = self.peek(1)[1]
             self.i += 2
             self.expect(")")
             body = self.stmt_or_block()
-            return ("for", var, lo, hi, body, ln)
+            if cmpop == "<" and step == "++":
+                return ("for", var, lo, hi, body, ln)
+            return ("forg", var, lo, cmpop, hi, step, body, ln)
         if k == "id" and v == "return":
             self.i += 1
             e = None
@@ -275,8 +281,14 @@ class Parser:
             r = self.expr()
             self.expect(";")
             return ("assign", e, r, ln)
-        if self.peek()[0] == "op" and self.peek()[1] in ("+=", "-=", "*=", "<<=", ">>=", "|=", "&=", "^=", "++", "--"):
-            self.err("compound assignment %r" % self.peek()[1])
+        if self.peek()[0] == "op" and self.peek()[1] in ("+=", "-=", "*=", "<<=", ">>=", "|=", "&=", "^="):
+            op = self.peek()[1][:-1]
+            self.i += 1
+            r = self.expr()
+            self.expect(";")
+            return ("assign", e, ("bin", op, e, r), ln)
+        if self.peek()[0] == "op" and self.peek()[1] in ("++", "--"):
+            self.err("increment statement %r" % self.peek()[1])
         self.expect(";")
         return ("expr", e, ln)
 
